@@ -181,10 +181,23 @@ func scnStaking(ctx *check.JobCtx) {
 		return
 	}
 	vals := []sdk.ValAddress{sdk.ValAddress(w.Acct("val0").Addr)}
+	w.Providers = nil
 	for _, n := range nodes {
 		w.CreateNode(n)
 		w.AddVstorage(n, uint64(9_000_000+r.Intn(3)*1_000_000))
 		w.ResetNode(n, world.StatusAll, nil, "")
+		w.Providers = append(w.Providers, &world.Provider{Acct: n})
+	}
+	// with stores=1 the nodes also serve storage orders: the super-node round robin moves while roles change
+	withStores := ctx.Arg("stores", "") == "1"
+	var gw *world.Provider
+	var owner *world.Owner
+	if withStores {
+		sp := w.Providers
+		gw = w.SetupProvider(w.Acct("d0"), 0)
+		w.Providers = sp
+		owner = &world.Owner{Id: actors.NewKeyDid("stk-owner"), Pay: w.Acct("d1")}
+		w.SetKeyDidPayment(owner.Id.(*actors.KeyDid), owner.Pay)
 	}
 	w.EndBlock()
 	ops := int(ctx.ArgInt("ops", 150))
@@ -197,7 +210,24 @@ func scnStaking(ctx *check.JobCtx) {
 			who = dels[r.Intn(len(dels))]
 		}
 		amt := amounts[r.Intn(len(amounts))]
-		switch r.Intn(14) {
+		pick := r.Intn(14)
+		if withStores && r.Intn(3) == 0 {
+			pick = 14 + r.Intn(3)
+		}
+		switch pick {
+		case 14:
+			// a store: moves the super-node cursor; replica counts up to more than the network can serve (fails after selection)
+			did := w.NewDataId()
+			_, oid := w.Store(world.StoreReq{Owner: owner.Id, Gateway: gw, DataId: did, CommitId: did, Duration: 3600, Replica: int32(1 + r.Intn(5)), Timeout: int32(10 + r.Intn(40)), Size: uint64(1 + r.Intn(2_000_000))})
+			if oid != 0 && r.Intn(2) == 0 {
+				w.CompleteAll(oid)
+			}
+		case 15:
+			// a store that fails after providers were selected (the price exceeds the payer's balance)
+			did := w.NewDataId()
+			w.Store(world.StoreReq{Owner: owner.Id, Gateway: gw, DataId: did, CommitId: did, Duration: 1 << 40, Replica: int32(1 + r.Intn(2)), Timeout: 20, Size: 1000})
+		case 16:
+			w.Advance(int64(5 + r.Intn(60)))
 		case 0, 1, 2:
 			w.Deliver("delegate", who, nil, delegateMsg(who, v, amt))
 		case 3, 4:
